@@ -133,6 +133,14 @@ L2cStep == \A i \in 1..Len(S'.out) :
               = [q \in 1..Len(S.flows[j].heads) |-> <<S.flows[j].heads[q].hid, S.flows[j].heads[q].pos, S.flows[j].heads[q].status>>]
 L2cS == [][L2cStep]_vars
 
+(* L3: an activated flow is started again whenever its instance ends, for as long as a flow that activated it is running *)
+ListeningS(f) == f.status \in {"WAITING", "STARTING", "STARTED"}
+L3Step == \A k \in 1..Len(S.flows) :
+   LET f == S.flows[k]  ep == EffParentS(k, 50) IN
+   (/\ f.activated > 0 /\ ListeningS(f) /\ ep # 0 /\ ActiveFlow(S.flows[ep]) /\ ActiveFlow(S'.flows[ep]))
+     => \E j \in 1..Len(S'.flows) : S'.flows[j].fid = f.fid /\ S'.flows[j].activated > 0 /\ ListeningS(S'.flows[j])
+L3S == [][L3Step]_vars
+
 (* ------------------------------------------------------------------ C10 at specification level *)
 (* no recursion budget of the specification is ever exhausted (the code has none: it would not return), and the
    number of internal events processed per call is linear in program size x live instances (Isolation!StepBound) *)
